@@ -35,7 +35,7 @@ def fmat? (s : String) : Option (Array (Array Float)) :=
 def vecOf (n : Nat) (a : Array Float) : Vec Float n := fun i => a[i.1]!
 
 def matVec (n : Nat) (A : Array (Array Float)) (v : Vec Float n) : Vec Float n :=
-  mem fun i => sumFin n fun j => (A[i.1]!)[j.1]! * v j
+  fun i => sumFin n fun j => (A[i.1]!)[j.1]! * v j
 
 def showVec {n : Nat} (v : Vec Float n) : String := showList showF ((List.finRange n).map v)
 
